@@ -22,7 +22,7 @@ from fractions import Fraction as F
 import numpy as np
 
 PROP = 'C03'
-TARGETS = ['T2', 'T3', 'TC03pyr', 'TC03stack', 'TC03segvol', 'TC03imgvol']
+TARGETS = ['T2', 'T3', 'TC03pyr', 'TC03stack', 'TC03segvol', 'TC03imgvol', 'TC03wireV', 'TC03wireI']
 LEAN_MODULES = ['HdVerif.Props.C03']
 MODEL_MODULES = ['HdVerif.Model.SegGeom']
 NAMESPACE = 'HdVerif.C03'
